@@ -224,6 +224,41 @@ def ob_mprocess_zero(sys):
     return FnOb([("t", "real", 0.0, 1.0)], run, eager_ite=True, max_paths=20)
 
 
+def ob_povm_on_ensemble_zero(sys, which):
+    """a POVM (symbolic elements) measured after a projective measurement process whose outcome `which` has probability exactly 0 for
+    the input state: the joint distribution p(x1, x2) = Tr(E_x2 K_x1 rho K_x1†) keeps its (x1, x2) layout -- the zero-weight block stays
+    in ITS place"""
+    outs = objlib.mprocess_kraus(sys)["zproj"]
+
+    def run(I):
+        from quara.objects.operators import compose_qoperations as comp
+        c = qenv.csys(sys)
+        mp = objlib.mprocesses(sys)["zproj"]
+        # input |1><1| (outcome 0 impossible) or |0><0| (outcome 1 impossible)
+        v = np.array([1 / np.sqrt(2), 0.0, 0.0, (-1 if which == 0 else 1) / np.sqrt(2)])
+        st = mk_state(c, v)
+        e0 = vec_of(I, "e0_", 4)
+        # second element = identity - first (the elements sum to the identity, so the joint distribution is normalised by construction and
+        # the library's renormalisation of distributions is the identity map)
+        idv = np.array([np.sqrt(2.0), 0.0, 0.0, 0.0])
+        e = [e0, (SymNd(list(idv)) - e0) if nd.has_sym(e0) else idv - e0]
+        pv = mk_povm(c, e)
+        B = basis_of(sys)
+        rho = dm(v, sys)
+        ref = []
+        for x1 in range(2):
+            post = apply_kraus(outs[x1], rho)
+            for x2 in range(2):
+                ref.append(re_(refs.tr(refs.mm(refs.ref_matrix(e[x2], B), post))))
+        out = []
+        for name, res in (("chain", comp(pv, mp, st)), ("bracketed", comp(pv, comp(mp, st)))):
+            out.append(Holds(f"{name}: shape (2, 2)", tuple(res.shape) == (2, 2)))
+            out.append(Eq(f"{name}: joint probabilities in (x1, x2) order", res.ps, np.array(ref, dtype=object), 1e-9))
+        return out
+    return FnOb([("e0_0", "real", 0.3, 1.1), ("e0_1", "real", -0.2, 0.2), ("e0_2", "real", -0.2, 0.2), ("e0_3", "real", -0.2, 0.2)], run,
+                eager_ite=True, max_paths=60, expect_nonlinear=True)
+
+
 def ens_signature(ens):
     """flat list of (p_x, numerators, denominator) describing a StateEnsemble or a distribution"""
     if type(ens).__name__ == "MultinomialDistribution":
@@ -547,6 +582,7 @@ def obligations(tier):
     out += specs("C06.povm_gate", [{"sys": "Q1", "pidx": 3, "gname": "ampdamp"}, {"sys": "Q1", "pidx": 4, "gname": "S"}, {"sys": "T1", "pidx": 9, "gname": "mix"}], ob_povm_gate)
     out += specs("C06.mprocess_state", [{"sys": "Q1", "mname": m} for m in ["z_then_U", "trine3", "reset2"]] + tiers(tier, [], [{"sys": "T1", "mname": "proj_then_U"}]), ob_mprocess_state, 3)
     out += specs("C06.mprocess_zero", [{"sys": "Q1"}], ob_mprocess_zero)
+    out += specs("C06.povm_on_ensemble_zero", [{"sys": "Q1", "which": w} for w in (0, 1)], ob_povm_on_ensemble_zero, 2)
     out += specs("C06.mprocess_mprocess", [{"sys": "Q1", "m2": "trine3", "m1": "z_then_U"}] + tiers(tier, [], [{"sys": "Q1", "m2": "z_then_U", "m1": "trine3"}]), ob_mm, 4)
     # CHAINS_LONG[1:] (two measurements followed by a final POVM, 4-5 operations) exhaust a 200 s exploration budget on the divisions
     # of the state ensemble: they are outside the claim (DESIGN.md 7.6)
